@@ -98,7 +98,7 @@ Record cinv (s : cstate) : Prop := {
   ci_progress : c_broken s = false -> forall dn cur rest sent n, c_fpc s = FWriting dn cur rest sent n ->
                 n = list_sum (lens_of (c_thr s) dn) /\
                 forall d, In d dn -> In (d, length (frame_of (c_thr s) d)) (c_hist s);
-  ci_shape_a : c_late s = false -> forall h x, c_hist s = h ++ [x] -> Forall (closed_entry (c_thr s)) h;
+  ci_shape_a : c_broken s = false -> forall h x, c_hist s = h ++ [x] -> Forall (closed_entry (c_thr s)) h;
   ci_shape_b : c_torn s = false -> forall t c, In (t, c) (c_hist s) ->
                closed_entry (c_thr s) (t, c) \/ cur_writing (c_fpc s) t c;
   ci_ok : c_broken s = false -> forall t n, result_of (c_thr s) t = Some (n, None) -> n = length (frame_of (c_thr s) t);
